@@ -23,6 +23,10 @@ Fixpoint e_string (s : string) : sx :=
 Definition d_strs := d_list d_string.
 Definition e_strs := e_list e_string.
 
+Definition d_qmode (x : sx) : option qmode :=
+  match x with N 0 => Some QFalse | N 1 => Some QTrue | N 2 => Some QModel | _ => None end.
+Definition e_qmode (q : qmode) : sx := match q with QFalse => N 0 | QTrue => N 1 | QModel => N 2 end.
+
 Definition d_init (x : sx) : option init :=
   match x with
   | L [] => Some None
@@ -111,7 +115,7 @@ Definition d_markup (x : sx) : option markup :=
       do bsc' <- d_strs bsc; do asc' <- d_strs asc; do pe' <- d_strs pe; do fe' <- d_strs fe;
       do oe' <- d_strs oe; do of' <- d_strs ofi;
       do send' <- d_bool send; do auto' <- d_bool auto; do attr' <- d_string attr; do ovr' <- d_bool ovr;
-      do ign' <- d_option d_bool ign; do qd' <- d_bool qd;
+      do ign' <- d_option d_bool ign; do qd' <- d_qmode qd;
       do mds' <- d_list d_kmodel mds; do ini' <- d_init ini; do nm' <- d_option d_string nm;
       do trs' <- d_list d_ktrans trs; do sts' <- d_list d_kstate sts;
       Some (mkMarkup bsc' asc' pe' fe' oe' of' send' auto' attr' ovr' ign' qd' mds' ini' nm' trs' sts')
@@ -120,7 +124,7 @@ Definition d_markup (x : sx) : option markup :=
 Definition e_markup (k : markup) : sx :=
   L [e_strs (k_bsc k); e_strs (k_asc k); e_strs (k_pe k); e_strs (k_fe k); e_strs (k_oe k); e_strs (k_of k);
      e_bool (k_send k); e_bool (k_auto k); e_string (k_attr k); e_bool (k_override k);
-     e_option e_bool (k_ignore k); e_bool (k_queued k);
+     e_option e_bool (k_ignore k); e_qmode (k_queued k);
      e_list e_kmodel (k_models k); e_init (k_initial k); e_option e_string (k_name k);
      e_list e_ktrans (k_transitions k); e_list e_kstate (k_states k)].
 
@@ -167,7 +171,7 @@ Definition e_view (m : machine) : sx :=
   L [e_bool (m_hsm m); L (map (e_state_view (m_ignore m)) (m_states m)); e_events (m_events m);
      e_init (m_initial m); e_strs (m_bsc m); e_strs (m_asc m); e_strs (m_pe m); e_strs (m_fe m);
      e_strs (m_oe m); e_strs (m_of m); e_bool (m_send m); e_bool (m_auto m); e_string (m_attr m);
-     e_bool (m_override m); e_bool (eff_ignore (m_ignore m) None); e_bool (m_queued m);
+     e_bool (m_override m); e_bool (eff_ignore (m_ignore m) None); e_qmode (m_queued m);
      e_list (fun md => L [e_mstate (md_state md); e_string (md_class md)]) (m_models m)].
 
 Fixpoint sx_eqb (a b : sx) : bool :=
